@@ -41,7 +41,8 @@
 (*        extra, runplanes, code, planes]                      (DESIGN B)  *)
 (* TLC's initial nondeterminism: kernel x data plane x every valid         *)
 (* entity_local_index / quadrature_permutation vector (inimode "all"), or  *)
-(* one axis at a time plus the listed combinations (inimode "axes").       *)
+(* one axis at a time plus the listed combinations (inimode "axes"), or    *)
+(* the first valid vector plus the listed combinations (inimode "base").   *)
 (***************************************************************************)
 EXTENDS Integers, Sequences, FiniteSets, TLC, Json, IOUtils
 
@@ -81,9 +82,9 @@ RowMajor(s, d) == RowMajorFrom(s, d, 1)
 (* names, frames, resolution *)
 Params == {"A", "w", "c", "coordinate_dofs", "entity_local_index", "quadrature_permutation"}
 
-FrameOf(fr, n) ==
-  LET S == {i \in 1..Len(fr) : n \in DOMAIN fr[i]} IN
-  IF S = {} THEN 0 ELSE CHOOSE i \in S : \A j \in S : j <= i
+RECURSIVE Find(_, _, _)
+Find(fr, n, i) == IF i = 0 THEN 0 ELSE IF n \in DOMAIN fr[i] THEN i ELSE Find(fr, n, i - 1)
+FrameOf(fr, n) == Find(fr, n, Len(fr))        \* innermost open scope declaring n (C name lookup), 0 if none
 
 \* lvl: frame index (> 0), 0 = kernel parameter, -1 = not declared in any open scope
 Resolve(c, n) ==
@@ -105,24 +106,13 @@ DimsOf(c, n, r) ==
   ELSE IF r.lvl > 0 /\ r.cell.t \in {"c", "a"} THEN c.code[r.cell.d].dims
   ELSE <<>>
 
------------------------------------------------------------------------------
-(* expressions: value *)
+-----------------------------------------------------------------------------------------------------------------------------------------------------
+(* expressions: one pass gives the value AND the accesses the evaluation performs, in C evaluation  *)
+(* order (?: && || short-circuit).  Ev(e, c) = [v |-> value, r |-> <<access records>>]             *)
 IsMI(e) == Len(e.i) = 1 /\ e.i[1].k = "mi"
 
-RECURSIVE Val(_, _)
-
-\* subscripts as written (MultiIndex: its component symbols), and the flat position C computes
-SubsOf(e, c, dims) ==
-  IF IsMI(e) THEN
-     IF Len(e.i[1].s) = Len(dims) THEN [j \in 1..Len(e.i[1].s) |-> Val(e.i[1].s[j], c)]
-     ELSE <<Val(e.i[1].g, c)>>
-  ELSE [j \in 1..Len(e.i) |-> Val(e.i[j], c)]
-
-FlatOf(e, c, dims, subs) ==
-  IF IsMI(e) THEN Val(e.i[1].g, c)
-  ELSE IF Len(subs) = Len(dims) THEN RowMajor(subs, dims)
-  ELSE IF Len(subs) = 1 THEN subs[1]
-  ELSE -1
+AccRec(n, s, k, r, dims, f, def, mi, sub) ==
+  [a |-> n, s |-> s, k |-> k, lvl |-> r.lvl, ty |-> r.cell.t, dims |-> dims, f |-> f, def |-> def, mi |-> mi, sub |-> sub]
 
 Readable(f, dims) == f >= 0 /\ f < Size(dims)
 
@@ -138,42 +128,14 @@ ReadCell(c, n, r, f) ==
   ELSE IF r.cell.t = "a" THEN r.cell.v[f + 1]
   ELSE 0
 
-ValAcc(e, c) ==
-  LET r    == Resolve(c, e.a)
-      dims == DimsOf(c, e.a, r)
-      subs == SubsOf(e, c, dims)
-      f    == FlatOf(e, c, dims, subs)
-  IN IF r.lvl >= 0 /\ r.cell.t \in {"p", "c", "a"} /\ Readable(f, dims) THEN ReadCell(c, e.a, r, f) ELSE 0
-
 Cmp(o, a, b) ==
   CASE o = "<"  -> a < b  [] o = "<=" -> a <= b [] o = ">"  -> a > b
     [] o = ">=" -> a >= b [] o = "==" -> a = b  [] o = "!=" -> a # b
 
 B2I(b) == IF b THEN 1 ELSE 0
 
-RECURSIVE SumVals(_, _, _, _)
-SumVals(xs, c, i, int) ==
-  IF i > Len(xs) THEN 0
-  ELSE IF int THEN Val(xs[i], c) + SumVals(xs, c, i + 1, int)
-  ELSE Mod(Mod(Val(xs[i], c)) + SumVals(xs, c, i + 1, int))
-RECURSIVE ProdVals(_, _, _, _)
-ProdVals(xs, c, i, int) ==
-  IF i > Len(xs) THEN 1
-  ELSE IF int THEN Val(xs[i], c) * ProdVals(xs, c, i + 1, int)
-  ELSE Mod(Mod(Val(xs[i], c)) * ProdVals(xs, c, i + 1, int))
-
-ValBin(e, c) ==
-  LET o == e.o
-      a == Val(e.x[1], c)
-  IN
-  IF o \in {"&&", "||"} THEN
-       IF o = "&&" THEN (IF a = 0 THEN 0 ELSE B2I(Val(e.x[2], c) # 0))
-       ELSE (IF a # 0 THEN 1 ELSE B2I(Val(e.x[2], c) # 0))
-  ELSE
-  LET b == Val(e.x[2], c) IN
-  IF o \in {"<", "<=", ">", ">=", "==", "!="} THEN
-       IF e.x[1].t = "I" /\ e.x[2].t = "I" THEN B2I(Cmp(o, a, b)) ELSE B2I(Cmp(o, Mod(a), Mod(b)))
-  ELSE IF e.t = "I" THEN
+Arith(o, int, a, b) ==
+  IF int THEN
        CASE o = "+" -> a + b [] o = "-" -> a - b [] o = "*" -> a * b
          [] o = "/" -> IF b = 0 THEN 0 ELSE a \div b
   ELSE
@@ -182,67 +144,88 @@ ValBin(e, c) ==
          [] o = "*" -> Mod(Mod(a) * Mod(b))
          [] o = "/" -> IF Mod(b) = 0 THEN 0 ELSE Mod(Mod(a) * InvP(b))
 
-Val(e, c) ==
-  CASE e.k = "lit"  -> e.v
-    [] e.k = "sym"  -> LET r == Resolve(c, e.n) IN IF r.lvl > 0 /\ r.cell.t = "s" THEN r.cell.v ELSE 0
-    [] e.k = "acc"  -> ValAcc(e, c)
-    [] e.k = "mi"   -> Val(e.g, c)
-    [] e.k = "neg"  -> IF e.t = "I" THEN 0 - Val(e.x[1], c) ELSE Mod(P - Mod(Val(e.x[1], c)))
-    [] e.k = "not"  -> B2I(Val(e.x[1], c) = 0)
-    [] e.k = "bin"  -> ValBin(e, c)
-    [] e.k = "sum"  -> SumVals(e.x, c, 1, e.t = "I")
-    [] e.k = "prod" -> ProdVals(e.x, c, 1, e.t = "I")
-    [] e.k = "fn"   -> Hash(e.f, [j \in 1..Len(e.x) |-> Val(e.x[j], c)])
-    [] e.k = "cond" -> IF Val(e.x[1], c) # 0 THEN Val(e.x[2], c) ELSE Val(e.x[3], c)
+RECURSIVE Ev(_, _)
+RECURSIVE EvAll(_, _, _)
+\* EvAll(xs, c, i) = [v |-> <<values of xs[i..]>>, r |-> their reads concatenated]
+EvAll(xs, c, i) ==
+  IF i > Len(xs) THEN [v |-> <<>>, r |-> <<>>]
+  ELSE LET h == Ev(xs[i], c)
+           t == EvAll(xs, c, i + 1)
+       IN [v |-> <<h.v>> \o t.v, r |-> h.r \o t.r]
 
-\* a division whose denominator is 0 in Z_p or Z (value-level results of this run are then outside the model)
+RECURSIVE FoldVals(_, _, _, _)
+FoldVals(o, int, vs, i) ==
+  IF i > Len(vs) THEN (IF o = "+" THEN 0 ELSE 1)
+  ELSE Arith(o, int, vs[i], FoldVals(o, int, vs, i + 1))
+
+\* an element access: subscripts as written (a MultiIndex contributes its component symbols), the flat
+\* position C computes, the access record, the value found there
+Element(e, c, k) ==
+  LET r    == Resolve(c, e.a)
+      dims == DimsOf(c, e.a, r)
+      mi   == IsMI(e)
+      ix   == IF mi THEN EvAll(e.i[1].s, c, 1) ELSE EvAll(e.i, c, 1)
+      g    == IF mi THEN Ev(e.i[1].g, c).v ELSE 0
+      subs == IF mi /\ Len(ix.v) # Len(dims) THEN <<g>> ELSE ix.v
+      f    == IF mi THEN g
+              ELSE IF Len(subs) = Len(dims) THEN RowMajor(subs, dims)
+              ELSE IF Len(subs) = 1 THEN subs[1] ELSE -1
+      ok   == r.lvl >= 0 /\ r.cell.t \in {"p", "c", "a"} /\ Readable(f, dims)
+      def  == IF ok /\ r.cell.t = "a" THEN r.cell.f[f + 1] ELSE TRUE
+  IN [v   |-> IF ok THEN ReadCell(c, e.a, r, f) ELSE 0,
+      sr  |-> ix.r,
+      rec |-> AccRec(e.a, subs, k, r, dims, f, def, IF mi THEN e.i[1].z ELSE <<>>, TRUE),
+      res |-> r, ok |-> ok, f |-> f]
+
+SymRead(n, c, k) ==
+  LET r == Resolve(c, n) IN
+  [v |-> IF r.lvl > 0 /\ r.cell.t = "s" THEN r.cell.v ELSE 0,
+   rec |-> AccRec(n, <<>>, k, r, <<>>, 0, IF r.lvl > 0 /\ r.cell.t = "s" THEN r.cell.def ELSE TRUE, <<>>, FALSE),
+   res |-> r]
+
+Ev(e, c) ==
+  CASE e.k = "lit"  -> [v |-> e.v, r |-> <<>>]
+    [] e.k = "sym"  -> LET x == SymRead(e.n, c, "r") IN [v |-> x.v, r |-> <<x.rec>>]
+    [] e.k = "acc"  -> LET x == Element(e, c, "r") IN [v |-> x.v, r |-> x.sr \o <<x.rec>>]
+    [] e.k = "mi"   -> LET x == EvAll(e.s, c, 1) IN [v |-> Ev(e.g, c).v, r |-> x.r]
+    [] e.k = "neg"  -> LET x == Ev(e.x[1], c) IN [v |-> IF e.t = "I" THEN 0 - x.v ELSE Mod(P - Mod(x.v)), r |-> x.r]
+    [] e.k = "not"  -> LET x == Ev(e.x[1], c) IN [v |-> B2I(x.v = 0), r |-> x.r]
+    [] e.k = "cond" -> LET q == Ev(e.x[1], c)
+                           y == IF q.v # 0 THEN Ev(e.x[2], c) ELSE Ev(e.x[3], c)
+                       IN [v |-> y.v, r |-> q.r \o y.r]
+    [] e.k = "bin" /\ e.o = "&&" ->
+         LET a == Ev(e.x[1], c) IN
+         IF a.v = 0 THEN [v |-> 0, r |-> a.r] ELSE LET b == Ev(e.x[2], c) IN [v |-> B2I(b.v # 0), r |-> a.r \o b.r]
+    [] e.k = "bin" /\ e.o = "||" ->
+         LET a == Ev(e.x[1], c) IN
+         IF a.v # 0 THEN [v |-> 1, r |-> a.r] ELSE LET b == Ev(e.x[2], c) IN [v |-> B2I(b.v # 0), r |-> a.r \o b.r]
+    [] e.k = "bin" /\ e.o \in {"<", "<=", ">", ">=", "==", "!="} ->
+         LET a == Ev(e.x[1], c)
+             b == Ev(e.x[2], c)
+         IN [v |-> IF e.x[1].t = "I" /\ e.x[2].t = "I" THEN B2I(Cmp(e.o, a.v, b.v)) ELSE B2I(Cmp(e.o, Mod(a.v), Mod(b.v))),
+             r |-> a.r \o b.r]
+    [] e.k = "bin" /\ e.o \in {"+", "-", "*", "/"} ->
+         LET a == Ev(e.x[1], c)
+             b == Ev(e.x[2], c)
+         IN [v |-> Arith(e.o, e.t = "I", a.v, b.v), r |-> a.r \o b.r]
+    [] e.k = "sum"  -> LET x == EvAll(e.x, c, 1) IN [v |-> FoldVals("+", e.t = "I", x.v, 1), r |-> x.r]
+    [] e.k = "prod" -> LET x == EvAll(e.x, c, 1) IN [v |-> FoldVals("*", e.t = "I", x.v, 1), r |-> x.r]
+    [] e.k = "fn"   -> LET x == EvAll(e.x, c, 1) IN [v |-> Hash(e.f, x.v), r |-> x.r]
+
+Val(e, c) == Ev(e, c).v
+
+\* a division whose denominator is 0 in Z_p (or Z): value-level results of this run are then outside the model
 RECURSIVE DivZero(_, _)
 DivZero(e, c) ==
-  CASE e.k \in {"lit", "sym"} -> FALSE
+  CASE e.k \in {"lit", "sym", "mi"} -> FALSE
     [] e.k = "acc" -> IF IsMI(e) THEN FALSE ELSE \E j \in 1..Len(e.i) : DivZero(e.i[j], c)
-    [] e.k = "mi"  -> FALSE
     [] e.k = "bin" /\ e.o = "/" ->
          \/ DivZero(e.x[1], c) \/ DivZero(e.x[2], c)
          \/ (IF e.t = "I" THEN Val(e.x[2], c) = 0 ELSE Mod(Val(e.x[2], c)) = 0)
     [] e.k = "cond" -> DivZero(e.x[1], c) \/ (IF Val(e.x[1], c) # 0 THEN DivZero(e.x[2], c) ELSE DivZero(e.x[3], c))
     [] OTHER -> \E j \in 1..Len(e.x) : DivZero(e.x[j], c)
 
------------------------------------------------------------------------------
-(* expressions: the accesses their evaluation performs (C evaluation: ?: && || short-circuit) *)
-AccRec(n, s, k, r, dims, f, def, mi, sub) ==
-  [a |-> n, s |-> s, k |-> k, lvl |-> r.lvl, ty |-> r.cell.t, dims |-> dims, f |-> f, def |-> def, mi |-> mi, sub |-> sub]
-
-RECURSIVE Reads(_, _)
-RECURSIVE ReadsAll(_, _, _)
-ReadsAll(xs, c, i) == IF i > Len(xs) THEN <<>> ELSE Reads(xs[i], c) \o ReadsAll(xs, c, i + 1)
-
-CellDefined(c, n, r, f, dims) ==
-  IF r.lvl > 0 /\ r.cell.t = "a" /\ Readable(f, dims) THEN r.cell.f[f + 1] ELSE TRUE
-
-\* the access record of array element e (kind k), and the reads its subscripts need
-AccessOf(e, c, k) ==
-  LET r    == Resolve(c, e.a)
-      dims == DimsOf(c, e.a, r)
-      subs == SubsOf(e, c, dims)
-      f    == FlatOf(e, c, dims, subs)
-      mi   == IF IsMI(e) THEN e.i[1].z ELSE <<>>
-  IN AccRec(e.a, subs, k, r, dims, f, CellDefined(c, e.a, r, f, dims), mi, TRUE)
-
-SubscriptReads(e, c) == IF IsMI(e) THEN ReadsAll(e.i[1].s, c, 1) ELSE ReadsAll(e.i, c, 1)
-
-Reads(e, c) ==
-  CASE e.k = "lit"  -> <<>>
-    [] e.k = "sym"  -> LET r == Resolve(c, e.n) IN
-                       <<AccRec(e.n, <<>>, "r", r, <<>>, 0,
-                                IF r.lvl > 0 /\ r.cell.t = "s" THEN r.cell.def ELSE TRUE, <<>>, FALSE)>>
-    [] e.k = "acc"  -> SubscriptReads(e, c) \o <<AccessOf(e, c, "r")>>
-    [] e.k = "mi"   -> ReadsAll(e.s, c, 1)
-    [] e.k = "cond" -> Reads(e.x[1], c) \o (IF Val(e.x[1], c) # 0 THEN Reads(e.x[2], c) ELSE Reads(e.x[3], c))
-    [] e.k = "bin" /\ e.o = "&&" -> Reads(e.x[1], c) \o (IF Val(e.x[1], c) = 0 THEN <<>> ELSE Reads(e.x[2], c))
-    [] e.k = "bin" /\ e.o = "||" -> Reads(e.x[1], c) \o (IF Val(e.x[1], c) # 0 THEN <<>> ELSE Reads(e.x[2], c))
-    [] OTHER -> ReadsAll(e.x, c, 1)
-
------------------------------------------------------------------------------
+-----
 (* the machine *)
 Ctx(K, D, mm) == [code |-> K.code, ext |-> D.ext, pl |-> D.planes[mm.pl], ini |-> mm.ini, fr |-> mm.fr, A |-> mm.A]
 
@@ -266,26 +249,26 @@ ArrayCell(ins, pc) ==
         v |-> IF ins.init = "full" THEN ins.vals ELSE [j \in 1..Size(ins.dims) |-> IF ins.init = "first" /\ j = 1 THEN ins.vals[1] ELSE 0],
         f |-> [j \in 1..Size(ins.dims) |-> ins.init # "none"]]
 
-\* a store of value v through lvalue lv (kind "w" for =, "u" for +=); illegal stores are logged, not performed
-\* (a store to A is always performed - it is writable memory - so that value-level checks see its effect)
-Store(mm, c, lv, v, k) ==
+\* a store through lvalue lv: `=` (kind "w") or `+=` (kind "u").  Illegal stores are logged, not performed
+\* (a store to A is always performed - it is writable memory - so that value-level checks see its effect).
+Store(mm, c, lv, rv, k, int) ==
   IF lv.k = "sym" THEN
-     LET r == Resolve(c, lv.n) IN
-     [fr |-> IF r.lvl > 0 /\ r.cell.t = "s" THEN [mm.fr EXCEPT ![r.lvl][lv.n] = [@ EXCEPT !.v = v, !.def = TRUE]] ELSE mm.fr,
-      A  |-> mm.A,
-      log |-> <<AccRec(lv.n, <<>>, k, r, <<>>, 0, IF r.lvl > 0 /\ r.cell.t = "s" THEN r.cell.def ELSE TRUE, <<>>, FALSE)>>]
+     LET x == SymRead(lv.n, c, k)
+         v == IF k = "w" THEN rv ELSE Arith("+", int, x.v, rv)
+         r == x.res
+     IN [fr |-> IF r.lvl > 0 /\ r.cell.t = "s" THEN [mm.fr EXCEPT ![r.lvl][lv.n] = [@ EXCEPT !.v = v, !.def = TRUE]] ELSE mm.fr,
+         A  |-> mm.A, log |-> <<x.rec>>]
   ELSE
-     LET a  == AccessOf(lv, c, k)
-         r  == Resolve(c, lv.a)
-         ok == Readable(a.f, a.dims)
-     IN
-     [fr |-> IF r.lvl > 0 /\ r.cell.t = "a" /\ ok
-             THEN [mm.fr EXCEPT ![r.lvl][lv.a] = [@ EXCEPT !.v = [@ EXCEPT ![a.f + 1] = v], !.f = [@ EXCEPT ![a.f + 1] = TRUE]]]
-             ELSE mm.fr,
-      A  |-> IF r.lvl = 0 /\ lv.a = "A" /\ ok THEN [mm.A EXCEPT ![a.f + 1] = v] ELSE mm.A,
-      log |-> SubscriptReads(lv, c) \o <<a>>]
+     LET x == Element(lv, c, k)
+         v == IF k = "w" THEN rv ELSE Arith("+", int, x.v, rv)
+         r == x.res
+     IN [fr |-> IF r.lvl > 0 /\ r.cell.t = "a" /\ x.ok
+                THEN [mm.fr EXCEPT ![r.lvl][lv.a] = [@ EXCEPT !.v = [@ EXCEPT ![x.f + 1] = v], !.f = [@ EXCEPT ![x.f + 1] = TRUE]]]
+                ELSE mm.fr,
+         A  |-> IF r.lvl = 0 /\ lv.a = "A" /\ x.ok THEN [mm.A EXCEPT ![x.f + 1] = v] ELSE mm.A,
+         log |-> x.sr \o <<x.rec>>]
 
-OldValue(c, lv) == IF lv.k = "sym" THEN Val(lv, c) ELSE ValAcc(lv, c)
+Conv(t, v) == IF t = "I" \/ t = "B" THEN v ELSE Mod(v)
 
 Step(K, D, mm) ==
   LET pc  == mm.pc
@@ -296,44 +279,40 @@ Step(K, D, mm) ==
   CASE ins.op = "vdecl" ->
          LET dup == ins.sym \in DOMAIN Top(mm.fr)
              has == ins.val.k # "none"
-             v   == IF has THEN (IF ins.t = "I" \/ ins.t = "B" THEN Val(ins.val, c) ELSE Mod(Val(ins.val, c))) ELSE 0
-         IN [nx EXCEPT !.fr  = Declare(mm.fr, ins.sym, [t |-> "s", d |-> pc, v |-> v, def |-> has]),
-                       !.acc = (IF has THEN Reads(ins.val, c) ELSE <<>>) \o <<DeclRec(ins.sym, dup, ins)>>,
+             x   == IF has THEN Ev(ins.val, c) ELSE [v |-> 0, r |-> <<>>]
+         IN [nx EXCEPT !.fr  = Declare(mm.fr, ins.sym, [t |-> "s", d |-> pc, v |-> Conv(ins.t, x.v), def |-> has]),
+                       !.acc = x.r \o <<DeclRec(ins.sym, dup, ins)>>,
                        !.dz  = mm.dz \/ (has /\ ins.hd /\ DivZero(ins.val, c))]
     [] ins.op = "adecl" ->
          LET dup == ins.sym \in DOMAIN Top(mm.fr) IN
          [nx EXCEPT !.fr = Declare(mm.fr, ins.sym, ArrayCell(ins, pc)), !.acc = <<DeclRec(ins.sym, dup, ins)>>]
     [] ins.op \in {"assign", "aadd"} ->
-         LET rv == Val(ins.rhs, c)
-             v  == IF ins.op = "assign" THEN (IF ins.t = "I" \/ ins.t = "B" THEN rv ELSE Mod(rv))
-                   ELSE (IF ins.t = "I" THEN OldValue(c, ins.lhs) + rv ELSE Mod(Mod(OldValue(c, ins.lhs)) + Mod(rv)))
-             st == Store(mm, c, ins.lhs, v, IF ins.op = "assign" THEN "w" ELSE "u")
-         IN [nx EXCEPT !.fr = st.fr, !.A = st.A, !.acc = Reads(ins.rhs, c) \o st.log,
+         LET x  == Ev(ins.rhs, c)
+             st == Store(mm, c, ins.lhs, Conv(ins.t, x.v), IF ins.op = "assign" THEN "w" ELSE "u", ins.t = "I")
+         IN [nx EXCEPT !.fr = st.fr, !.A = st.A, !.acc = x.r \o st.log,
                        !.dz = mm.dz \/ (ins.hd /\ DivZero(ins.rhs, c))]
     [] ins.op = "loop" ->
-         LET b  == Val(ins.b, c)
-             e  == Val(ins.e, c)
-             lf == Bind(Empty, ins.i, [t |-> "s", d |-> pc, v |-> b, def |-> TRUE])
-             rd == Reads(ins.b, c) \o Reads(ins.e, c)
-                     \o <<[DeclRec(ins.i, FALSE, [op |-> "loop", static |-> FALSE, const |-> FALSE]) EXCEPT !.lvl = 1]>>
-         IN IF b < e THEN [nx EXCEPT !.fr = Push(Push(mm.fr, lf), Empty), !.acc = rd]
+         LET b  == Ev(ins.b, c)
+             e  == Ev(ins.e, c)
+             lf == Bind(Empty, ins.i, [t |-> "s", d |-> pc, v |-> b.v, def |-> TRUE])
+             rd == b.r \o e.r \o <<DeclRec(ins.i, FALSE, [op |-> "loop", static |-> FALSE, const |-> FALSE])>>
+         IN IF b.v < e.v THEN [nx EXCEPT !.fr = Push(Push(mm.fr, lf), Empty), !.acc = rd]
             ELSE [nx EXCEPT !.pc = ins.end + 1, !.acc = rd]
     [] ins.op = "endloop" ->
          LET lp  == K.code[ins.start]
              fr1 == Pop(mm.fr)                                   \* leave the body block
              i1  == Top(fr1)[lp.i].v + 1
              fr2 == [fr1 EXCEPT ![Len(fr1)][lp.i].v = i1]
-             c2  == [c EXCEPT !.fr = fr2]
-             e   == Val(lp.e, c2)
-         IN IF i1 < e THEN [nx EXCEPT !.pc = ins.start + 1, !.fr = Push(fr2, Empty), !.acc = Reads(lp.e, c2)]
-            ELSE [nx EXCEPT !.fr = Pop(fr2), !.acc = Reads(lp.e, c2)]
+             e   == Ev(lp.e, [c EXCEPT !.fr = fr2])
+         IN IF i1 < e.v THEN [nx EXCEPT !.pc = ins.start + 1, !.fr = Push(fr2, Empty), !.acc = e.r]
+            ELSE [nx EXCEPT !.fr = Pop(fr2), !.acc = e.r]
     [] ins.op = "scope_in"  -> [nx EXCEPT !.fr = Push(mm.fr, Empty)]
     [] ins.op = "scope_out" -> [nx EXCEPT !.fr = Pop(mm.fr)]
 
 -----------------------------------------------------------------------------
 (* the properties, as predicates on what the last step touched *)
 InBoundsA(a) ==
-  (a.k \in {"r", "w", "u"} /\ a.lvl >= 0 /\ a.ty \in {"p", "c", "a"}) =>
+  (a.k \in {"r", "w", "u"} /\ a.sub /\ a.lvl >= 0 /\ a.ty \in {"p", "c", "a"}) =>
      /\ Len(a.s) = Len(a.dims)
      /\ \A j \in 1..Len(a.s) : a.s[j] >= 0 /\ a.s[j] < a.dims[j]
      /\ a.f = RowMajor(a.s, a.dims)                 \* the flat position C computes is the row-major one
@@ -386,6 +365,8 @@ Base(v) == [i \in 1..Len(v) |-> v[i][1]]
 Inis(K) ==
   IF K.inimode = "all" THEN {[e |-> es, q |-> qs] : es \in Vectors(K.valid.e), qs \in Vectors(K.valid.q)}
   ELSE LET b == [e |-> Base(K.valid.e), q |-> Base(K.valid.q)] IN
+       IF K.inimode = "base" THEN {b} \cup {[e |-> K.extra[i].e, q |-> K.extra[i].q] : i \in 1..Len(K.extra)}
+       ELSE
        {b}
        \cup {[b EXCEPT !.e[i] = x] : <<i, x>> \in UNION {{<<i, y>> : y \in RangeOf(K.valid.e[i])} : i \in 1..Len(K.valid.e)}}
        \cup {[b EXCEPT !.q[i] = x] : <<i, x>> \in UNION {{<<i, y>> : y \in RangeOf(K.valid.q[i])} : i \in 1..Len(K.valid.q)}}
